@@ -105,6 +105,19 @@ let () =
            let pre = if pre = "-" then "" else pre in
            let tok = label_token (codes pre) (codes name) width in
            Printf.printf "%s\n" (text tok)
+         | "MULTICOL" ->
+           (* MULTICOL nd (n lower width)* nvals v.. -> "B" / "D c,c | v" lines joined by " ; "  (one value per record) *)
+           let nd = ni () in
+           let dims = List.init nd (fun _ -> let n = nn () in let l = nf () in let w = nf () in (n, (l, w))) in
+           let nv = ni () in
+           let vals = Array.init nv (fun _ -> nf ()) in
+           let nx = List.map fst dims in let geom = List.map snd dims in
+           let nxi = List.map int_of_nat nx in
+           let addr ix = List.fold_left2 (fun acc i n -> acc * n + int_of_nat i) 0 ix nxi in
+           let ls = write_multicol fops nx geom (fun ix -> [vals.(addr ix)]) in
+           Printf.printf "%s\n" (String.concat " ; " (List.map (function
+               | MBlank -> "B"
+               | MData (c, v) -> "D " ^ String.concat "," (List.map hex c) ^ " | " ^ String.concat "," (List.map hex v)) ls))
          | "DISK" ->
            (* DISK rfreq freq it_restart <cfg> n it.. -> number of lines on disk after each calc (no spill) *)
            let rf = nz () in let freq = nz () in let itr = nz () in let c0 = cfg () in let n = ni () in
